@@ -92,7 +92,7 @@ def check_case(case) -> Result:
 
     res = Result()
     o = case["oil"]
-    T, api, sg, gor = o["T"], o["api"], o["sg"], o["gor"]
+    T, api, sg, gor = gens.oil_tuple(o)
     pb = float(lib("pressure_bubblepoint_Standing", O.pressure_bubblepoint_Standing, T, api, sg, gor))
     if not (math.isfinite(pb) and pb > 50):
         res.skipped = "bubble point <= 50 psia"
